@@ -22,7 +22,7 @@ import mmdump
 import peggen
 
 SPEC_IMPORTS = ("From TxV Require Import Core.Base Core.Show Model.PegSyntax Model.Peg Model.PegShow Model.Build Model.Spec.\n"
-                "Open Scope string_scope.\n" + r"""
+                "From TxV Require Proofs.PegTerm.\nOpen Scope string_scope.\n" + r"""
 Fixpoint show_ext_tree (t : stree) : list string :=
   match t with
   | ST _ _ _ _ => []
@@ -57,7 +57,8 @@ Definition show_spec_build (g : grammar) (c : config) (mm : list ninfo) (tbl : l
   end.
 Definition show_wfg (g : grammar) (tbl : list ((nat * nat) * nat)) : string :=
   (if wfg g 24 then "T" else "F") ++
-  (if existsb (fun e => Nat.eqb (snd e) 0) tbl then "z" else "").
+  (if existsb (fun e => Nat.eqb (snd e) 0) tbl then "z" else "") ++
+  (if PegTerm.terminating PegTerm.none_nullable g then "t" else "").
 """)
 
 
@@ -433,7 +434,9 @@ def run(chk):
                 disagreements.append({"case": cinfo, "impl": im, "model": m})
             # ---- classifier consistency: the Python mirror of wfg is the Coq wfg
             wf_coq = mv[3].startswith("T")
-            zero = mv[3].endswith("z")
+            zero = "z" in mv[3]
+            if wf_coq and "t" in mv[3] and ii == 0:
+                chk.stat("grammars: wfg and terminating (C01_refinement_total applies)")
             if wf_coq != (not tags):
                 disagreements.append({"case": cinfo, "impl": sorted(tags), "model": "Coq wfg = %s" % mv[3]})
             ctags = sorted(tags) + (["empty_regex_match"] if zero else [])
